@@ -228,6 +228,78 @@ def part_backends(sh, res):
         shutil.rmtree(scratch, ignore_errors=True)
 
 
+def part_wide(sh, res):
+    """headers of 12 columns whose names are prefixes / extensions of one another (n1 vs n10, x vs xx vs x_1): every name at every one of the 12 positions (rotations of the header), every spelling,
+    a-side through query_table (Python and rbql-js), b-side through a JOIN, and the positional variables a1..a12 next to them; NF and the last column; direct mode"""
+    fams = [['n%d' % i for i in range(1, 13)], ['x', 'xx', 'xxx', 'x1', 'x10', 'x11', 'x_1', 'x1_', '_x', 'X', 'xX', 'x12'],
+            ['a1', 'a2', 'a10', 'a11', 'b1', 'b10', 'NR', 'NF', 'aNR', 'a', 'b', 'a12'], ['col 1', 'col 10', 'col 11', 'col 1 ', 'col', 'col 12', 'c', 'co', 'col 2', 'col 20', ' col 1', 'col  1']]
+    wrows = [['r%dc%d' % (r, c) for c in range(1, 13)] for r in (1, 2, 3)]
+    brows = [['r%dc1' % r] + ['B%dc%d' % (r, c) for c in range(2, 13)] for r in (1, 2, 3)]
+    jsbatch, jsmeta = [], []
+    for fam in fams:
+        for rot in range(12):
+            hdr = fam[rot:] + fam[:rot]
+            for pos, name in enumerate(hdr):
+                for label, text, p_ in queries_for(name, pos):
+                    if label == 'attr' and fam is fams[2]:
+                        continue      # a.a1 etc.: the name itself looks like a variable - kept to the bracket spellings
+                    text2 = text.replace(', NR', ', a%d, NR' % (pos + 1))
+                    exp = [[r[pos], r[pos], i + 1] for i, r in enumerate(wrows)]
+                    got = drive.run_py(text2, qcheck.copy_table(wrows), None, hdr, None)
+                    res.evaluations += 1
+                    res.traces += 1
+                    res.states += 1
+                    res.transitions += 1
+                    if got['error'] is not None or got['records'] != exp:
+                        res.violation('name-binds-wrong-column', {'backend': 'table', 'position': 'wide', 'header': hdr, 'query': text2, 'wide': True}, exp, {'records': got['records'], 'error': got['error']})
+                    else:
+                        res.feat('wide_' + label)
+                        if pos >= 9:
+                            res.nontrivial += 1
+                    if label != 'attr':
+                        jsbatch.append({'op': 'query', 'query': text2, 'input': wrows, 'input_names': hdr})
+                        jsmeta.append((text2, exp, hdr))
+                    if rot % 3 == 0:
+                        # b-side: the same header on the join table
+                        tb = text.replace('select a', 'select b', 1).replace(', NR', ', b%d, a2 join B on a1 == b1' % (pos + 1))
+                        if label == 'attr':
+                            tb = 'select b.%s, b%d, a2 join B on a1 == b1' % (name, pos + 1)
+                        expb = [[r[pos], r[pos], w[1]] for r, w in zip(brows, wrows)]
+                        got = drive.run_py(tb, qcheck.copy_table(wrows), qcheck.copy_table(brows), ['k%d' % i for i in range(1, 13)], hdr)     # both tables carry a header (the engine refuses mixed modes)
+                        res.evaluations += 1
+                        res.traces += 1
+                        res.states += 1
+                        if got['error'] is not None or got['records'] != expb:
+                            res.violation('name-binds-wrong-column', {'backend': 'table', 'position': 'wide-join', 'header': hdr, 'query': tb, 'wide': True, 'bside': True}, expb, {'records': got['records'], 'error': got['error']})
+                        else:
+                            res.feat('wide_bside')
+            # positional variables next to a full-width header, the last column, NF
+            for text, exp in (('select a12, a10, a1, NF', [[r[11], r[9], r[0], 12] for r in wrows]), ('select a[12], a[11], a[-1]', [[r[11], r[10], r[11]] for r in wrows]),
+                              ('update set a12 = a10 + a1, a10 = NF', [r[:9] + [12, r[10], r[9] + r[0]] for r in wrows]),
+                              ('select * except a10, a12, a1', [r[1:9] + [r[10]] for r in wrows]), ('select a11 order by a12 desc limit 2', [[wrows[2][10]], [wrows[1][10]]])):
+                got = drive.run_py(text, qcheck.copy_table(wrows), None, hdr, None)
+                res.evaluations += 1
+                res.traces += 1
+                res.states += 1
+                if got['error'] is not None or got['records'] != exp:
+                    if 'a[-1]' in text and got['error'] is not None:
+                        continue
+                    res.violation('name-binds-wrong-column', {'backend': 'table', 'position': 'wide-positional', 'header': hdr, 'query': text, 'wide': True}, exp, {'records': got['records'], 'error': got['error']})
+                else:
+                    res.feat('wide_positional')
+    from vf import js
+    if js.available():
+        for (text, exp, hdr), o in zip(jsmeta, js.run_batch(jsbatch)):
+            got = qcheck.js_got(o)
+            res.evaluations += 1
+            res.traces += 1
+            if got['error'] is not None or got['records'] != exp:
+                res.violation('js:name-binds-wrong-column', {'backend': 'js-table', 'position': 'wide', 'header': hdr, 'query': text}, exp, {'records': got['records'], 'error': got['error']})
+            else:
+                res.feat('js_wide')
+    res.sample({'wide_header': fams[1], 'rotations': 12, 'queries': ['select a["x10"], a5, NR', 'select b.x10, b5, a2 join B on a1 == b1']})
+
+
 def part_positions(sh, res):
     """names in WHERE / UPDATE / EXCEPT / ORDER BY positions, direct mode, header-never-data, triples"""
     rb = tree.load()
@@ -639,7 +711,7 @@ def run_shard(sh):
     if sh['part'] == 'table_js':
         part_table_js(sh, res)
         return res
-    {'table': part_table, 'backends': part_backends, 'positions': part_positions, 'hnd': part_header_not_data, 'with': part_with}[sh['part']](sh, res)
+    {'table': part_table, 'backends': part_backends, 'positions': part_positions, 'hnd': part_header_not_data, 'with': part_with, 'wide': part_wide}[sh['part']](sh, res)
     return res
 
 
@@ -652,16 +724,16 @@ def main(tier, seed):
     npairs = len(subset_pairs(T))
     shards += [{'part': 'backends', 'full': T, 'lo': lo, 'hi': hi} for lo, hi in core.chunks(npairs, 32)]
     shards += [{'part': 'join_on', 'lo': i, 'hi': i + 1, 'js': j} for i in range(len(JOIN_NAMES)) for j in (False, True)]
-    shards += [{'part': 'positions', 'ntriple': 12 if T else 8}, {'part': 'hnd'}, {'part': 'with'}, {'part': 'with_js'}]
+    shards += [{'part': 'positions', 'ntriple': 12 if T else 8}, {'part': 'hnd'}, {'part': 'with'}, {'part': 'with_js'}, {'part': 'wide'}]
     res = core.run_shards('vf.checks.c09', shards)
     return core.finish(PID, tier, seed, res, t0,
         rule='all names of length 1-2 over 16 atoms; every ordered pair of distinct names as a 2-column header through query_table with a["n"], a[\'n\'] and a.n; a subset of pairs (all single-atom pairs, each 2-atom name against 3 decoys and its confusable partners) through '
-             'query_csv (quoted_rfc files, also b["n"] through a JOIN file), pandas and sqlite; names (incl. names with commas) in WHERE / UPDATE / EXCEPT / ORDER BY through rbql-py and rbql-js; bare names in direct mode; header triples; `select NR, a1` on all 4 backends; WITH modifier x caller flag x 6 queries (differential); JOIN ON over 16 key names x 16 x key positions x every spelling pair (aN, a.n, a["n"], a[\'n\']) x both operand orders x INNER/LEFT, Python and rbql-js; '
+             'query_csv (quoted_rfc files, also b["n"] through a JOIN file), pandas and sqlite; names (incl. names with commas) in WHERE / UPDATE / EXCEPT / ORDER BY through rbql-py and rbql-js; bare names in direct mode; header triples; `select NR, a1` on all 4 backends; WITH modifier x caller flag x 6 queries (differential); JOIN ON over 16 key names x 16 x key positions x every spelling pair (aN, a.n, a["n"], a[\'n\']) x both operand orders x INNER/LEFT, Python and rbql-js; 12-column headers of mutually prefixing names (n1/n10, x/xx/x1/x10, a1/b10/NR as names, `col 1`/`col 10`) in all 12 rotations x every position x every spelling, a-side (both engines) and b-side, next to a1..a12 / NF / a[-1]; '
              'non-trivial = the name is not identifier-like / the modifier contradicts the caller flag',
         assumptions=['names containing an a.ident / b.ident token are excluded (the quantifier)', 'the name inside a["..."] is written with the canonical escapes (backslash, quote, \\n, \\r, \\t)'],
         extra={'names': len(names), 'backend_pairs': npairs},
         min_features={'table_dq': 50000, 'table_sq': 50000, 'table_attr': 500, 'csv_dq': 300, 'pandas_dq': 300, 'sqlite_dq': 300, 'csv_join': 300, 'direct_mode_bare': 50, 'triples': 100, 'header_not_data': 20,
-                      'with_overrides_opposite_flag': 50, 'variable_like_names': 300, 'fstring_names': 40, 'js_table_dq': 50000, 'js_table_sq': 50000, 'js_with_override': 100, 'position_update': 100, 'js_position_except': 100, 'js_direct_mode_bare': 50, 'direct_mode_bare_pandas': 50, 'direct_mode_join_ambiguous': 20, 'direct_mode_join_ok': 10, 'js_direct_mode_join': 30, 'js_position_update': 100, 'join_on_ab': 5000, 'join_on_ba': 5000, 'js_join_on_ba': 5000, 'join_on_spelling_dq_sq': 1000})
+                      'with_overrides_opposite_flag': 50, 'variable_like_names': 300, 'fstring_names': 40, 'js_table_dq': 50000, 'js_table_sq': 50000, 'js_with_override': 100, 'position_update': 100, 'js_position_except': 100, 'js_direct_mode_bare': 50, 'direct_mode_bare_pandas': 50, 'direct_mode_join_ambiguous': 20, 'direct_mode_join_ok': 10, 'js_direct_mode_join': 30, 'js_position_update': 100, 'join_on_ab': 5000, 'join_on_ba': 5000, 'js_join_on_ba': 5000, 'join_on_spelling_dq_sq': 1000, 'wide_dq': 500, 'wide_sq': 500, 'wide_attr': 200, 'wide_bside': 300, 'wide_positional': 100, 'js_wide': 1000})
 
 
 def replay(rep):
